@@ -453,6 +453,31 @@ def estr(n, depth=0):
     return k or "?"
 
 
+def local_names(f, fb=None):
+    """names of all parameters and locals of f (and of the lambdas defined in it)"""
+    names = {p["n"] for p in f.d["params"]}
+    for b, i, n in f.nodes(("decl", "var")):
+        if n.get("k") == "decl":
+            names |= {v["n"] for v in n["vars"]}
+        elif n.get("s") in ("local", "param", "binding"):
+            names.add(n["n"])
+    if fb is not None:
+        for g in fb.fns.values():
+            if g.kind == "lambda" and (g.d.get("lambda_parent") or "").startswith(f.id):
+                names |= local_names(g)
+    return names
+
+
+def need_names(f, names, fb=None, what=""):
+    """rules written against named locals/parameters of one function declare them here: if the function no longer
+    uses these identifiers the idiom has changed and the rule cannot judge it (exit 2, never a violation)"""
+    from .extract import AnalysisBroken
+    have = local_names(f, fb)
+    missing = [n for n in names if n not in have]
+    if missing:
+        raise AnalysisBroken("%s: %s no longer uses the local/parameter name(s) %s the rule %s was written against - idiom changed, re-audit the rule" % (f.where, f.pq.split("::")[-1], missing, what))
+
+
 class FactBase:
     def __init__(self, raw):
         self.raw = raw
